@@ -43,6 +43,14 @@ def max_id(o):
 _REUSED = None
 
 
+def generator_at(n):
+    """A fresh IdGenerator whose next id is str(n) - reached through its public method only."""
+    ig = IdGenerator()
+    for _ in range(n):
+        ig.get_next_id()
+    return ig
+
+
 def compile_reused(doc, uri='u'):
     """Compile with ONE long-lived Compiler per process (its id counter is set to where a fresh one would start):
     ('ok', pickles) or ('exc', text).  Documents reach it with ids restarting at 0, as they do when every file is
@@ -52,7 +60,7 @@ def compile_reused(doc, uri='u'):
         _REUSED = Compiler(IdGenerator())
     d_in = copy.deepcopy(doc)
     d_in['uri'] = uri
-    _REUSED.id_generator._id_counter = max_id(doc) + 1
+    _REUSED.id_generator = generator_at(max_id(doc) + 1)
     try:
         return ('ok', _REUSED.compile(d_in))
     except Exception as e:  # noqa: BLE001
@@ -66,8 +74,7 @@ def compile_both(doc, uri='u'):
     d_in['uri'] = uri
     snapshot = copy.deepcopy(d_in)
     start = max_id(doc) + 1
-    ig = IdGenerator()
-    ig._id_counter = start
+    ig = generator_at(start)
     try:
         got = ('ok', Compiler(ig).compile(d_in))
     except Exception as e:  # noqa: BLE001
